@@ -2085,18 +2085,26 @@ func newHandler(store metadata.Store, s3Client storage.S3Client, brokerInfo prot
 	authorizer := buildAuthorizerFromEnv(logger)
 	var leaseManager *metadata.PartitionLeaseManager
 	var groupLeaseManager *metadata.GroupLeaseManager
+	var h *handler
 	if etcdStore, ok := store.(*metadata.EtcdStore); ok {
 		brokerIDStr := fmt.Sprintf("%d", brokerInfo.NodeID)
 		leaseManager = metadata.NewPartitionLeaseManager(etcdStore.EtcdClient(), metadata.PartitionLeaseConfig{
 			BrokerID: brokerIDStr,
 			Logger:   logger,
+			// Another broker may have appended since this broker last owned the
+			// partition; a log cached from then would hand out its offsets again.
+			OnAcquire: func(ctx context.Context, topic string, partition int32) {
+				if h != nil {
+					h.dropPartitionLog(ctx, topic, partition)
+				}
+			},
 		})
 		groupLeaseManager = metadata.NewGroupLeaseManager(etcdStore.EtcdClient(), metadata.GroupLeaseConfig{
 			BrokerID: brokerIDStr,
 			Logger:   logger,
 		})
 	}
-	return &handler{
+	h = &handler{
 		apiVersions: generateApiVersions(),
 		store:       store,
 		s3:          s3Client,
@@ -2141,6 +2149,23 @@ func newHandler(store metadata.Store, s3Client storage.S3Client, brokerInfo prot
 		authMetrics:          newAuthMetrics(),
 		authLogLast:          make(map[string]time.Time),
 		s3sem:                s3sem,
+	}
+	return h
+}
+
+// dropPartitionLog forgets the cached log of a partition so that the next
+// request reopens it from the metadata store and S3. Uploads the old log still
+// has in flight are allowed to land first, so the reopened log sees them.
+func (h *handler) dropPartitionLog(ctx context.Context, topic string, partition int32) {
+	h.logMu.Lock()
+	plog := h.logs[topic][partition]
+	delete(h.logs[topic], partition)
+	h.logMu.Unlock()
+	if plog == nil {
+		return
+	}
+	if err := plog.Flush(ctx); err != nil {
+		h.logger.Warn("flush of dropped partition log failed", "topic", topic, "partition", partition, "error", err)
 	}
 }
 
